@@ -67,7 +67,13 @@ def _run_seed(args):
     tmp = pathlib.Path(tempfile.mkdtemp(prefix='sa-seed-'))
     try:
         _copy_tree(pathlib.Path(repo_root), tmp)
-        why = apply_edits(tmp, seed['edits'])
+        if seed.get('patch'):
+            import subprocess
+            r = subprocess.run(['patch', '-p1', '-s', '--no-backup-if-mismatch', '-i', seed['patch']], cwd=str(tmp),
+                               capture_output=True, text=True)
+            why = None if r.returncode == 0 else 'patch does not apply to the current tree'
+        else:
+            why = apply_edits(tmp, seed['edits'])
         if why is not None:
             return {'name': seed['name'], 'status': 'skipped', 'why': why}
         mod = importlib.import_module(f'rules.{prop.lower()}')
@@ -101,7 +107,7 @@ def run_selftest(prop: str, mod, repo_root=None, jobs=16):
     from engine.repo import Repo, repo_root as rr
     from engine.report import Ctx
     root = pathlib.Path(repo_root) if repo_root else rr()
-    seeds = list(getattr(mod, 'SEEDS', []))
+    seeds = list(getattr(mod, 'SEEDS', [])) + committed_patches(prop)
     ctx = Ctx(prop, Repo(root), 'quick')
     mod.run(ctx)
     baseline_failed = {o.key for o in ctx.failed()}
@@ -120,6 +126,27 @@ def run_selftest(prop: str, mod, repo_root=None, jobs=16):
         'skipped_list': [r for r in results if r['status'] == 'skipped'],
         'detail': [{k: v for k, v in r.items() if k in ('name', 'status', 'rule', 'report')} for r in results],
     }
+    return out
+
+
+def committed_patches(prop: str):
+    """The sub-agent patches committed under /verif: seeded changes that a rule of this property reports (must fire) and
+    behaviour-preserving refactorings of this property's code (controls: must stay silent).  A patch that no longer applies
+    to the current tree is reported as skipped."""
+    import json
+    verif = HERE.parent
+    out = []
+    for d in sorted((verif / 'seeded').glob('C*-*')):
+        meta = d / 'meta.json'
+        if not meta.is_file() or not (d / 'patch.diff').is_file():
+            continue
+        m = json.loads(meta.read_text())
+        if prop in (m.get('detected_by') or {}):
+            out.append({'name': f'seeded/{d.name}', 'expect': prop, 'edits': [], 'control': False, 'patch': str(d / 'patch.diff')})
+    for d in sorted((verif / 'refactored').glob(f'{prop}-*')):
+        if (d / 'patch.diff').is_file():
+            out.append({'name': f'refactored/{d.name}', 'expect': prop, 'edits': [], 'control': True,
+                        'patch': str(d / 'patch.diff')})
     return out
 
 
